@@ -63,6 +63,8 @@ def pick_ratio(rng, hi=2e4):
 
 def pick_periods(rng, dt, lo=1, hi=6, lead0=None, ratio_hi=2e4):
     ps = [pick_ratio(rng, ratio_hi) * dt for _ in range(rng.randint(lo, hi))]
+    if rng.random() < 0.2 and ratio_hi >= 6:
+        ps[rng.randrange(len(ps))] = dt * 6          # exactly six time steps: the boundary of the 'below 6 steps' rule (not below)
     if lead0 is None:
         lead0 = rng.random() < 0.3
     return ([0.0] + ps if lead0 else ps), lead0
@@ -634,6 +636,14 @@ def refinement(ctx, im, ncases, nmax):
             ok = bool(np.all(s2[1][0] >= s1[1][0] * (1 - tols)))
             ctx.oracle('C02.e spectral displacement never decreases under refinement (beyond the C01 tolerance)', ok, inp,
                        detail={'S_d raw': s1[1][0], 'S_d refined': s2[1][0]})
+            # the same for S_a and S_v wherever the period is NOT below six coarse steps (there both records report w^2 S_d, w S_d;
+            # below six steps the reported S_a is the peak ground acceleration, which refinement may well undercut: finding F03-1)
+            sel = np.array([not (T < dt * 6) for T in periods])
+            if sel.any():
+                for nm, j in (('S_v', 1), ('S_a', 2)):
+                    ok = bool(np.all(np.asarray(s2[1][j])[sel] >= np.asarray(s1[1][j])[sel] * (1 - tols[sel])))
+                    ctx.oracle(f'C02.e {nm} never decreases under refinement for periods of at least six coarse time steps (beyond the C01 tolerance)', ok, inp,
+                               detail={'raw': s1[1][j], 'refined': s2[1][j], 'T/dt': [T / dt for T in periods]})
         else:
             ctx.oracle('pseudo_response_spectra returns on its domain', False, inp, detail=[s1[0], s2[0]])
         # object level: AccSignal.s_d is computed on the internally refined record and is never below the raw value
